@@ -26,17 +26,17 @@ Theorem net_latent_inv s c a m r1 r2 lo hi :
   lo <= n_latent a <= hi -> lo <= n_latent (arch_of (net_step s c a m r1 r2)) <= hi.
 Proof.
   intros Hlo Hhi Hm HL. destruct m as [nn|nn|em|hm]; cbn [net_step].
-  - assert (0 <= arg nn (choose latent_choices r1)) by (destruct nn; cbn [arg]; [exact Hm|apply latent_choices_nonneg]).
-    unfold arch_of; cbn [fst]. destruct (Z.ltb_spec (n_latent a + arg nn (choose latent_choices r1)) (n_max_latent c)); cbn [n_latent]; lia.
-  - assert (0 <= arg nn (choose latent_choices r1)) by (destruct nn; cbn [arg]; [exact Hm|apply latent_choices_nonneg]).
-    unfold arch_of; cbn [fst]. destruct (Z.ltb_spec (n_min_latent c) (n_latent a - arg nn (choose latent_choices r1))); cbn [n_latent]; lia.
+  - assert (0 <= arg nn (choose latent_choices r2)) by (destruct nn; cbn [arg]; [exact Hm|apply latent_choices_nonneg]).
+    unfold arch_of; cbn [fst]. destruct (Z.ltb_spec (n_latent a + arg nn (choose latent_choices r2)) (n_max_latent c)); cbn [n_latent]; lia.
+  - assert (0 <= arg nn (choose latent_choices r2)) by (destruct nn; cbn [arg]; [exact Hm|apply latent_choices_nonneg]).
+    unfold arch_of; cbn [fst]. destruct (Z.ltb_spec (n_min_latent c) (n_latent a - arg nn (choose latent_choices r2))); cbn [n_latent]; lia.
   - destruct (prefix_name "encoder." (enc_step (ns_enc s) (n_enc_cfg c) (n_enc a) em r1 r2)) as [[e' nm] rt]. exact HL.
   - destruct (ns_wrapped_head s && negb wrapper_forwards); [exact HL|].
     destruct (mlp_step (n_head_cfg c) (n_head a) hm r1 r2) as [[h' nm] rt]. exact HL.
 Qed.
 
 Theorem net_latent_effective s c a nn r1 r2 :
-  let n := arg nn (choose latent_choices r1) in
+  let n := arg nn (choose latent_choices r2) in
   (n_latent a + n < n_max_latent c ->
    net_step s c a (NAddLatent nn) r1 r2 =
    ({| n_latent := n_latent a + n; n_enc := n_enc a; n_head := n_head a |}, "add_latent_node"%string, [n])) /\
@@ -99,14 +99,14 @@ Proof.
   - destruct HB as [HL HF]. destruct (cnn_remove_channel_spec c a hl nn r1 r2) as (_ & _ & E & H). unfold arch_of in *.
     specialize (H _ _ (Z.le_refl _) (Z.le_refl _) Hm HF).
     destruct (cnn_remove_channel c a hl nn r1 r2) as [[a' nm] rt]. cbn [fst enc_in_bounds] in *. split; [rewrite E|]; auto.
-  - pose proof (s_bounds_inv simba_params c a (SAddNode nn) r1 simba_choices_ok Hm HB) as H. cbn [s_step] in H. unfold arch_of in *.
-    destruct (s_add_node simba_params c a nn r1) as [[a' nm] rt]. exact H.
-  - pose proof (s_bounds_inv simba_params c a (SRemoveNode nn) r1 simba_choices_ok Hm HB) as H. cbn [s_step] in H. unfold arch_of in *.
-    destruct (s_remove_node simba_params c a nn r1) as [[a' nm] rt]. exact H.
-  - pose proof (s_bounds_inv lstm_params c a (SAddNode nn) r1 lstm_choices_ok Hm HB) as H. cbn [s_step] in H. unfold arch_of in *.
-    destruct (s_add_node lstm_params c a nn r1) as [[a' nm] rt]. exact H.
-  - pose proof (s_bounds_inv lstm_params c a (SRemoveNode nn) r1 lstm_choices_ok Hm HB) as H. cbn [s_step] in H. unfold arch_of in *.
-    destruct (s_remove_node lstm_params c a nn r1) as [[a' nm] rt]. exact H.
+  - pose proof (s_bounds_inv simba_params c a (SAddNode nn) r2 simba_choices_ok Hm HB) as H. cbn [s_step] in H. unfold arch_of in *.
+    destruct (s_add_node simba_params c a nn r2) as [[a' nm] rt]. exact H.
+  - pose proof (s_bounds_inv simba_params c a (SRemoveNode nn) r2 simba_choices_ok Hm HB) as H. cbn [s_step] in H. unfold arch_of in *.
+    destruct (s_remove_node simba_params c a nn r2) as [[a' nm] rt]. exact H.
+  - pose proof (s_bounds_inv lstm_params c a (SAddNode nn) r2 lstm_choices_ok Hm HB) as H. cbn [s_step] in H. unfold arch_of in *.
+    destruct (s_add_node lstm_params c a nn r2) as [[a' nm] rt]. exact H.
+  - pose proof (s_bounds_inv lstm_params c a (SRemoveNode nn) r2 lstm_choices_ok Hm HB) as H. cbn [s_step] in H. unfold arch_of in *.
+    destruct (s_remove_node lstm_params c a nn r2) as [[a' nm] rt]. exact H.
 Qed.
 
 Definition net_in_bounds (c : net_cfg) (a : net_arch) : Prop :=
